@@ -232,8 +232,7 @@ func (ctx *actorContext) initScheduler() {
 }
 
 func (ctx *actorContext) nextChildGuid() uint64 {
-	ctx.childGuid++
-	return ctx.childGuid
+	return atomic.AddUint64(&ctx.childGuid, 1)
 }
 
 func (ctx *actorContext) CronTask(name, expression string, function func(ctx ActorContext)) error {
